@@ -412,6 +412,171 @@ def range_sweep():
     return out
 
 
+# ---- refused operations at every container size, in particular at every growth / shrink threshold of the backing store
+TABLE_PRIMES = [0, 1, 5, 11, 23, 53, 101, 197, 389, 683, 1259]
+def table_ideal(n):
+    """Table_Ideal_Size(n): the first prime of Table_Primes not below (n+1)/0.9"""
+    s = (n + 1) * 10 // 9
+    return next(p for p in TABLE_PRIMES if p >= s)
+def growth_thresholds(limit):
+    """item counts at which the next insertion makes the table grow (4 in 5 slots, 9 in 11, 20 in 23, 47 in 53, 90 in 101, …)"""
+    return [n for n in range(1, limit + 1) if table_ideal(n + 1) > table_ideal(n)]
+def battery_sizes(top, full_upto):
+    """the sizes at which the refused operations are fired: every size up to `full_upto`, and each threshold ± 1 up to `top`"""
+    s = set(range(0, min(top, full_upto) + 1))
+    for t in growth_thresholds(top): s |= {x for x in (t - 1, t, t + 1) if 0 <= x <= top}
+    return s
+
+def _tok(ty, k): return f'i{k}' if ty == 'int' else f'sk{k}'
+def _wrong(r, ty): return r.choice(['sx', 'p1', 'sk1'] if ty == 'int' else ['i3', 'p1', 'i0'])
+
+def map_battery(r, i, kind, kty, vty, present, absent):
+    """every kind of refusal of a Table / Tree that holds the keys `present`: wrong-typed key, wrong-typed value (for a new and for a
+    stored key), NULL key, NULL value, absent key (get / rem), wrong-typed key of get / mem / rem, a resize the container cannot
+    honour, members it lacks; then the length and one valid lookup"""
+    n = len(present); newk = _tok(kty, r.choice(absent)); gone = _tok(kty, r.choice(absent)); v = _tok(vty, r.randrange(100))
+    some = _tok(kty, r.choice(present)) if present else newk
+    ops = [f'set {i} {_wrong(r, kty)} {v}', f'set {i} {newk} {_wrong(r, vty)}', f'set {i} {some} {_wrong(r, vty)}', f'set {i} N {v}', f'set {i} {newk} N',
+           f'get {i} {gone}', f'get {i} {_wrong(r, kty)}', f'get {i} N', f'rem {i} {gone}', f'rem {i} {_wrong(r, kty)}', f'rem {i} N', f'mem {i} {_wrong(r, kty)}']
+    if kind == 'tre': ops.append(f'resize {i} {r.choice([1, min(n + 1, 64), 60])}')  # a Tree cannot be resized at all
+    elif n >= 2: ops.append(f'resize {i} {r.randrange(1, min(n, 65))}')              # a Table not below its item count
+    ops.append(r.choice([f'push {i} i1', f'pop {i}', f'pushat {i} i1 i0', f'popat {i} i0', f'concat {i} i1', f'append {i} i1', f'sort {i}']))
+    r.shuffle(ops)
+    ops.append(f'len {i}')
+    if present: ops += [f'get {i} {some}', f'mem {i} {some}']
+    return ops
+
+def map_refusals(r, kind, kty, vty, top, full_upto):
+    """one Table / Tree walked up to `top` items by set and down again by rem; the battery at every size of `battery_sizes`, in both
+    directions (the slot count at a given size differs on the way down), and after explicit resizes at the top"""
+    sizes = battery_sizes(top, full_upto)
+    keys = r.sample(range(0, 4 * top + 8), top); absent = [k for k in range(0, 4 * top + 8) if k not in keys][:40]
+    start = r.choice([0, 0, min(4, top), min(9, top)])        # `new` with pairs: the slot count is Table_Ideal_Size(number of pairs)
+    lines = [f'new 0 {kind} {kty} {vty} ' + ' '.join(f'{_tok(kty, k)} {_tok(vty, k)}' for k in keys[:start])]
+    lines[0] = lines[0].rstrip()
+    present = list(keys[:start])
+    if start in sizes: lines += map_battery(r, 0, kind, kty, vty, present, absent)
+    for k in keys[start:]:
+        lines.append(f'set 0 {_tok(kty, k)} {_tok(vty, k)}'); present.append(k)
+        if len(present) in sizes: lines += map_battery(r, 0, kind, kty, vty, present, absent)
+    if kind == 'tab':
+        for n in (top, top + 1, 2 * top):
+            if n <= 64: lines.append(f'resize 0 {n}'); lines += map_battery(r, 0, kind, kty, vty, present, absent)
+    order = list(present); r.shuffle(order)
+    for k in order:
+        lines.append(f'rem 0 {_tok(kty, k)}'); present.remove(k)
+        if len(present) in sizes: lines += map_battery(r, 0, kind, kty, vty, present, absent)
+    lines.append('resize 0 0'); lines += map_battery(r, 0, kind, kty, vty, [], absent)   # no slots at all
+    lines.append(f'set 0 {_tok(kty, keys[0])} {_tok(vty, 1)}'); lines += map_battery(r, 0, kind, kty, vty, [keys[0]], absent)
+    return lines
+
+def seq_battery(r, i, kind, ty, alloc, n):
+    """every kind of refusal of an Array / List / Tuple of n items of type `ty` outside the known findings: indices one past either end,
+    far out, at the int64 limits, of the wrong type, NULL (get / set / pop_at / push_at); a wrong-typed value stored at a valid index
+    (Array, List); a wrong-typed element pushed onto a List; an absent or wrong-typed element removed; pop of an empty container; every
+    reallocating member of a Tuple that is not on the heap; a Tuple resize that would grow it"""
+    good = _tok(ty, r.randrange(100)) if ty != 'plain' else f'p{r.randrange(4)}'
+    wrong = r.choice(['sx', 'p1'] if ty == 'int' else ['i3', 'p1'] if ty == 'str' else ['i3', 'sx'])
+    far = r.choice([n + 7, -n - 9, 1000, -65536, I64MAX, I64MIN, I64MAX - 1, I64MIN + 1, 2**62, -2**62, 2**32, -2**31])
+    ops = [f'get {i} i{n}', f'get {i} i{-n - 1}', f'get {i} i{far}', f'get {i} {r.choice(["sx", "p1", "N"])}',
+           f'set {i} i{n} {good}', f'set {i} i{-n - 1} {good}', f'set {i} {r.choice(["sx", "N"])} {good}',
+           f'popat {i} i{n}', f'popat {i} i{-n - 1}', f'popat {i} {r.choice(["sx", "p1", "N", f"i{far}"])}',
+           f'pushat {i} {good} i{n + 1 if kind != "tup" else n}', f'pushat {i} {good} i{-n - 2 if kind == "arr" else -n - 1}', f'pushat {i} {good} {r.choice(["sx", "N", f"i{far}"])}']
+    if n == 0: ops.append(f'pop {i}')
+    if kind in ('arr', 'lst'):
+        if n > 0: ops += [f'set {i} i{r.randrange(n)} {wrong}', f'set {i} i{-1} N', f'rem {i} {wrong}', f'mem {i} {wrong}']
+        ops.append(f'rem {i} {_tok(ty, 1000) if ty != "plain" else "p1000"}')
+        if kind == 'lst': ops += [f'push {i} {wrong}', f'append {i} N', f'pushat {i} {wrong} i0', f'concat {i} N']
+        ops.append(f'print {i} 0 Lab |')      # (a refused concat ends the history of an Array on both sides: territory of F15)
+    else:
+        ops.append(f'rem {i} {_tok(ty, 1000)}')
+        ops += [f'assign {i} N', f'resize {i} {n + r.randrange(0, 3)}' if alloc == 'heap' else f'resize {i} {r.randrange(0, n + 2)}']
+        if alloc != 'heap':
+            ops += [f'push {i} {good}', f'append {i} {good}', f'concat {i} N']
+            if n > 0: ops += [f'pop {i}', f'popat {i} i0', f'popat {i} i-1', f'pushat {i} {good} i0', f'rem {i} {_tok(ty, 500 + n - 1)}']
+    r.shuffle(ops)
+    ops.append(f'len {i}')
+    if n > 0: ops.append(f'get {i} i{r.randrange(-n, n)}')
+    return ops
+
+def seq_refusals(r, kind, ty, top, alloc='heap'):
+    """an Array / List / heap Tuple walked up to `top` items by push and down again by pop (Array: across every capacity boundary of
+    Array_Reserve_More / Array_Reserve_Less), the battery at every size; a Tuple that is not on the heap: one object per size"""
+    lines = []
+    val = lambda k: _tok(ty, k) if ty != 'plain' else f'p{k % 1000}'
+    if kind == 'tup' and alloc != 'heap':
+        for n in range(0, min(top, 12) + 1):
+            lines.append((f'new {n} tup {alloc} ' + ' '.join(val(500 + k) for k in range(n))).rstrip())
+            lines += seq_battery(r, n, kind, ty, alloc, n)
+        return lines
+    start = r.choice([0, 0, 3, 8]) if top >= 8 else 0
+    lines.append((f'new 0 {kind} {ty if kind != "tup" else alloc} ' + ' '.join(val(500 + k) for k in range(start))).rstrip())
+    n = start
+    lines += seq_battery(r, 0, kind, ty, alloc, n)
+    while n < top:
+        lines.append(f'{r.choice(["push", "append"])} 0 {val(500 + n)}' if r.random() < 0.8 else f'pushat 0 {val(500 + n)} i{r.randrange(0, n + 1) if kind == "arr" or n == 0 else r.randrange(0, n)}')
+        if lines[-1].startswith('pushat') and kind == 'tup' and n == 0: lines[-1] = f'push 0 {val(500)}'
+        n += 1
+        lines += seq_battery(r, 0, kind, ty, alloc, n)
+    if kind == 'arr':
+        for m in (top + 3, top):                      # Array_Resize: capacity exactly m
+            lines.append(f'resize 0 {m}'); lines += seq_battery(r, 0, kind, ty, alloc, n)
+    while n > 0:
+        lines.append(f'pop 0' if r.random() < 0.7 else f'popat 0 i{r.randrange(-n, n)}'); n -= 1
+        lines += seq_battery(r, 0, kind, ty, alloc, n)
+    return lines
+
+def str_battery(r, i, alloc, n):
+    sub = 's' + r.choice(['q', 'zz', 'qa', 'w9'])       # the texts are made of a, b, c, x: never present
+    ops = [f'rem {i} {sub}', f'rem {i} N', f'rem {i} {r.choice(["i3", "p1", "i0"])}', f'concat {i} {r.choice(["N", "i3", "p1"])}', f'append {i} {r.choice(["N", "i3", "p1"])}',
+           f'assign {i} {r.choice(["N", "i3", "p1"])}', f'mem {i} N', f'print {i} {r.randrange(0, n + 1)} {r.choice(["D |", "S |", "D | sab", "S | i4", "D | N", "Q |"])}',
+           r.choice([f'get {i} i0', f'set {i} i0 sa', f'push {i} sa', f'pop {i}', f'pushat {i} sa i0', f'popat {i} i0', f'sort {i}'])]
+    if alloc != 'heap':
+        ops += [f'resize {i} {r.randrange(0, n + 3)}', f'concat {i} sab', f'append {i} sa', f'assign {i} sq', f'print {i} 0 Lab |', f'dealloc {i}']
+    r.shuffle(ops)
+    ops += [f'len {i}', f'mem {i} sa']
+    return ops
+
+def str_refusals(r, alloc, top):
+    """Strings of every length 0..top (heap: one String grown by append and cut back by resize; stack / static: one object per length)"""
+    lines = []
+    if alloc != 'heap':
+        for n in range(0, min(top, 14) + 1):
+            lines.append(f'new {n} str {alloc} s' + ''.join(r.choice('abcx') for _ in range(n)))
+            lines += str_battery(r, n, alloc, n)
+        return lines
+    lines.append('new 0 str heap s'); n = 0
+    lines += str_battery(r, 0, alloc, 0)
+    while n < top:
+        t = ''.join(r.choice('abcx') for _ in range(r.choice([1, 1, 2, 3]))); lines.append(f'{r.choice(["append", "concat"])} 0 s{t}'); n += len(t)
+        lines += str_battery(r, 0, alloc, n)
+    while n > 0:
+        n = max(0, n - r.choice([1, 2, 5])); lines.append(f'resize 0 {n}')
+        lines += str_battery(r, 0, alloc, n)
+    return lines
+
+def refusal_sweep(rng, quick, boost=1):
+    """directed cases: refused operations at every size of every container kind (see the docstrings above)"""
+    r = rng; out = []
+    reps = 1 if quick else 4 * boost
+    if boost > 1 and quick: reps = boost
+    for k in range(reps):
+        types = [('int', 'int'), ('str', 'int'), ('int', 'str'), ('str', 'str')]
+        for j, (kty, vty) in enumerate(types):
+            deep = (j == k % 4) or not quick           # one key / value typing per run goes up to 91 items (thresholds 4, 9, 20, 47, 90)
+            top = 180 if (not quick and j == k % 4) else 91 if deep else 22      # thorough: one typing per repetition also crosses 177 / 197
+            out.append(Case(f'refuse_tab_{kty}_{vty}_{k}', map_refusals(r, 'tab', kty, vty, top, 24 if j == k % 4 or not quick else 10)))
+            out.append(Case(f'refuse_tre_{kty}_{vty}_{k}', map_refusals(r, 'tre', kty, vty, 24 if deep else 10, 24)))
+        for ty in ('int', 'str', 'plain'):
+            out.append(Case(f'refuse_arr_{ty}_{k}', seq_refusals(r, 'arr', ty, 30 if ty == 'int' or not quick else 12)))
+            out.append(Case(f'refuse_lst_{ty}_{k}', seq_refusals(r, 'lst', ty, 12)))
+        for alloc in ('heap', 'stack'):
+            out.append(Case(f'refuse_tup_{alloc}_{k}', seq_refusals(r, 'tup', r.choice(['int', 'str']), 12, alloc)))
+        for alloc in ('heap', 'stack', 'static'):
+            out.append(Case(f'refuse_str_{alloc}_{k}', str_refusals(r, alloc, 20)))
+    return out
+
+
 class C12(Spec):
     id = 'C12'; engine = 'fail'; harness = 'h_fail'; driver = 'drv_fail'
     generators = ('Fail', 'Disp')      # CelloGen.Fail: check / mutation order profile of the mirrored functions; CelloGen.Disp: declaration matrix
@@ -423,7 +588,9 @@ class C12(Spec):
                  'value operation (index arithmetic on BitVec 64); translator link: the check / mutation order profile of the 71 mirrored C functions '
                  'and the declaration matrix are regenerated from the sources on every run and are what theorems are stated about; '
                  'white-box differential check of the model against the real library; '
-                 'independent reference + before/after dump oracle in C under ASan/UBSan, risky calls probed in a forked child')
+                 'independent reference + before/after dump oracle in C under ASan/UBSan, risky calls probed in a forked child; '
+                 'around every refused call a snapshot of the representation the caller can observe (len, values through get, iteration order, '
+                 'the addresses handed out by get / iteration / c_str, capacity / slot count and backing block) is compared')
     level_text = ('Theorems over the executable model lean/Cello/Fail.lean (no sorry): C12_failure_atomic — for every store of objects (Array, List, '
                   'heap and stack Tuple, Table, Tree, heap/stack/static String, Range, Slice, Zip, plain Int/Plain values), every object and every '
                   'operation outside the territories of the known findings, an operation that raises leaves the observable state of every object '
@@ -461,7 +628,14 @@ class C12(Spec):
                   'String_Resize tests the result of realloc before writing through it (fix 63509f2: C12_string_resize_null_test_source on the profile '
                   'with the CELLO_MEMORY_CHECK regions kept). Undefined behaviour is not "no exception": C12_raises_exactly_<type> carry the hypothesis '
                   'X.ubTerritory op = false and C12_no_ub_<type> prove that ub is the outcome exactly on that territory (finding foreach-noniter, '
-                  'C12_foreach_noniter_refuted).')
+                  'C12_foreach_noniter_refuted). Table storage: Tab.moves says which operations replace the slot array (Table_Rehash / Table_Clear; the '
+                  'harness prints it as mv= from t->data before and after every call); C12_refused_table_keeps_slot_array — for every table that has '
+                  'slots, every operation and every argument, a call that raises returns the very same table (slot count included) and has not replaced '
+                  'the slot array, hence neither the iteration order nor any element reference handed out earlier; C12_refused_table_set_keeps_slot_array '
+                  'the same stated on the refused arguments of set (at every size, the growth thresholds of Table_Ideal_Size included); '
+                  'C12_table_slots_change_only_by_move; C12_table_set_validates_before_growth reads from the generated profile that Table_Set '
+                  'writes nothing in front of Table_Set_Move on a table that has slots and that Table_Set_Move casts key and value before its first '
+                  'write (C12_table_set_growth_first_refuted: the make-room-first order is refused).')
     level_note = ('Trusted: Lean kernel; the hand-written model lean/Cello/Fail.lean (validated by the correspondence, which is testing); harness and '
                   'driver; libc. Not covered: allocation failure (OutOfMemoryError paths), Float/File/Thread objects, iteration of views (C11), '
                   'states reached through a known finding on String-element arrays.')
@@ -476,8 +650,16 @@ class C12(Spec):
             'territory of the Table_Get address shortcut repaired by fix bc940bb). Ranges of the histories take any int64 start/stop/step for which Range_Len does not overflow (step 0: ~15%). '
             'Nested-container histories (family nest): container sources, every kind of bad index, refused sources pushed onto Lists of containers; '
             'junk objects (freed-object / foreign magic number) receive every entry point and their bytes are compared before/after. '
+            'Directed refusal sweeps (first cases of every run): one Table per key/value typing walked from 0 up to 91 items by set and down again by rem '
+            '(every size up to 24 and each Table_Ideal_Size growth threshold 4/5, 9/11, 20/23, 47/53, 90/101 ± 1, in both directions, after explicit resizes, '
+            'and with no slots at all), Trees up to 24 items, Arrays walked across every capacity boundary of Array_Reserve_More / _Less (0..30 items) and '
+            'after resize, Lists and heap Tuples 0..12, stack Tuples and heap/stack/static Strings of every length: at each size the whole battery of refusals '
+            '(wrong-typed key, wrong-typed value for a new and a stored key, NULL key, NULL value, absent key, wrong-typed lookup, unsupported resize, '
+            'missing member; indices one past either end, far out, at the int64 limits, wrong-typed, NULL; wrong-typed value at a valid index; '
+            'absent / wrong-typed element; empty pop; every reallocating member of a non-heap Tuple / String), each followed by len and a valid lookup. '
             'Each op is run on the real library (first in a forked child when a failure is expected), result + white-box dump compared with the Lean '
-            'model, public dump before/after compared, and compared with an independent C reference. non-trivial item = a (operation, resulting '
+            'model, public dump before/after compared, and compared with an independent C reference; when a call raises and the contents are unchanged the '
+            'representation snapshots taken before and after it are compared (sig c12-refused-reordered / -moved-storage / -capacity / -len). non-trivial item = a (operation, resulting '
             'observation) pair whose result is an exception or ub; distinct = distinct text.')
     trusted_base = ('lean/Cello/Fail.lean is a hand model of the C control flow: validated by the correspondence (testing) and pinned to the source text by '
                     'the generated check/mutation profile (translate/g_fail.py: a text-level extractor, no C parser; what a callee does is known only '
@@ -485,6 +667,14 @@ class C12(Spec):
                     'harness/h_fail.c + lean/Driver/Fail.lean (correspondence is testing); the C reference inside the harness is a third implementation',
                     'libc malloc/realloc/memmove/strstr/vsnprintf are modelled, not verified; allocation never fails')
     assumptions = ('default (checked) build; single thread; collector stopped so that harness-held objects stay alive',
+                   'reading of "left exactly as it was / fully usable" for a refused call: beyond len and contents (unambiguous), the iteration order is what '
+                   'it was, every element reference obtained earlier through get / iteration / c_str still addresses that element (a reference invalidated '
+                   'by a refused call is a use-after-free waiting in correct caller code: not intact), and capacity / slot count and backing block are what '
+                   'they were. One exception is built into oracle and model: a container that had no element storage at all (a Table emptied by resize(t, 0): '
+                   '0 slots, NULL block, no element a reference could address) and is given its first block by a refused call has lost nothing a caller could '
+                   'hold or observe (Table_Set allocates Table_Ideal_Size(0) = 1 slot before Table_Set_Move casts: C12_table_slots_refuted, an I line of the '
+                   'harness, not a failure). The iteration order itself is not a model quantity in this engine (C02 owns the slot-level model); the model '
+                   'predicts slot count and whether the slot array is replaced, the C oracle compares order and addresses directly',
                    'element, key and value types of Array/List/Table/Tree objects are Int, String or a type without instances; containers of containers '
                    'are the separate objects `Nest` (Array/List of Array/List/Table of Int): get/set/push/push_at/pop/pop_at/resize/len; a source that is '
                    'not a container for set (valid index) or for push/push_at on an outer Array is known-finding territory (assign-clears, foreach-noniter, '
@@ -511,6 +701,7 @@ class C12(Spec):
             for k in range(ncases * boost):
                 ml = 8 if k % 3 else (3 if k % 2 else 20)
                 cs.append(Case(f'{fam}{k}', history(rng, fam, nops, ml)))
+        cs = refusal_sweep(rng, quick, boost) + cs      # directed cases first: the verdict on a moved check comes early
         cs += boundary_sweep()
         cs += range_sweep()
         return cs
